@@ -13,6 +13,7 @@ assume copy-promising defaults (`Good`), which the pinned tree does not provide
 for a mutable default overridden by value in a subclass (finding F9).
 -/
 import TraitsVerif.Lemmas.AttrReset
+import TraitsVerif.Lemmas.AttrSource
 namespace TraitsVerif.Props.C10
 open TraitsVerif TraitsVerif.Model.Attr
 
@@ -41,6 +42,27 @@ theorem source_tie :
     ∧ Generated.cloneNoOverrideDefaultValue = ["disallow"]
     ∧ Generated.getattrByKind[Kind.trait.toNat]? = some "getattr_trait" := by
   decide
+
+/-! ### The model is the source (`Generated/AttrProg.lean`, translated from ctraits.c on every run) -/
+
+open TraitsVerif.Model.MiniC in
+/-- `defaultValueFor` is the interpretation of the source of `default_value_for`,
+for all eleven default kinds, every default value (NULL included), factory,
+validator, flag word and warning mode.  (`default_value_type` in range is what
+`set_default_value` enforces.) -/
+theorem C10_default_is_source (C : IC) (s : OSt) (dn idn : Bool)
+    (hmax : C.t.dvt ≤ Generated.MAXIMUM_DEFAULT_VALUE_TYPE) :
+    call C Generated.AttrProg.default_value_for [.trait, .self, .name] s dn idn
+      = ofPtr (match defaultValueFor C.E C.t s.self s.name s.ctx with | (r, c) => (r, { s with ctx := c })) :=
+  Lemmas.AttrSource.default_value_for_is_source C s dn idn hmax
+
+open TraitsVerif.Model.MiniC in
+/-- `getattrTrait` is the interpretation of the source of `getattr_trait`: default
+computed (once per call), stored, `post_setattr`'d, announced with
+old = Uninitialized; an error exit leaves the default stored. -/
+theorem C10_getattr_is_source (C : IC) (s : OSt) (dn idn : Bool) :
+    call C Generated.AttrProg.getattr_trait [.trait, .self, .name] s dn idn = ofPtr (getattrTrait C.E C.t s) :=
+  Lemmas.AttrSource.getattr_trait_is_source C s dn idn
 
 /-! ### First read -/
 
